@@ -227,6 +227,40 @@ def random_history(rng, nops, kinds, valmode, maxlen=60):
     return g.lines
 
 
+def locality_history(rng, kind, nops, valmode='small'):
+    """index locality without interference: under `#!quiet on` the harness oracle makes no public calls of its own, so the only
+    indexed accesses are the ones written here: get/set at an interior index k, then a removal / insertion in FRONT of k (rem by
+    value, pop_at, push_at, pop), then indexed accesses at and around k. State hidden behind the index interface (a cached cursor,
+    a remembered position) is exposed when it survives the structural change."""
+    g = Gen(rng, valmode); g.lines.append('#!quiet on')
+    g.new(0, kind, [g.elem(kind) for _ in range(rng.choice([9, 14, 23, 40]))])
+    for _ in range(nops):
+        s = g.slots[0]; n = len(s.items)
+        if n < 6:
+            for _ in range(8): g.push(0)
+            continue
+        k = rng.randrange(2, n - 1)
+        (g.get if rng.random() < 0.6 else g.set)(0, k if rng.random() < 0.8 else k - n)
+        r = rng.random()
+        if r < 0.40:                                   # rem of a value whose first occurrence lies before k
+            vs = g.vals(s); v = vs[rng.randrange(0, k)]; g.lines.append(f'rem 0 {v}'); del s.items[vs.index(v)]
+        elif r < 0.60: g.popat(0, rng.randrange(0, k))
+        elif r < 0.80: g.pushat(0, rng.randrange(0, k + 1))
+        elif r < 0.90: g.pop(0)
+        else: g.push(0)
+        n = len(s.items)
+        for _ in range(rng.choice([1, 2, 3])):
+            j = min(max(k + rng.choice([-2, -1, 0, 0, 1, 2]), 0), n - 1)
+            op = rng.random()
+            if op < 0.5: g.get(0, j)
+            elif op < 0.7: g.set(0, j)
+            elif op < 0.85: g.popat(0, j); n = len(s.items)
+            else: g.pushat(0, j); n = len(s.items)
+            if n < 3: break
+    g.lines.append('#!quiet off'); g.simple('len', 0)
+    return g.lines
+
+
 def growth_sweep(rng, kind, n, valmode='small'):
     """push up to n, pop to empty; insert / remove at the front; shrink by popat in the middle: crosses every growth and shrink"""
     g = Gen(rng, valmode); g.new(0, kind, [])
@@ -378,6 +412,9 @@ class C04(Spec):
             mode = rng.choice(['small', 'small', 'keytag', 'wide'])
             kinds = rng.choice([['A'], ['L'], ['T'], ['A', 'L'], ['A', 'L', 'T'], ['AS', 'LS'], ['A12'], ['A5'], ['A12', 'A5'], list(KINDS)])
             cs.append(Case(f'rand{i}', random_history(rng, 400 if quick else 500, kinds, mode, maxlen=rng.choice([12, 40, 90]))))
+        # (a') index locality with a silent oracle (hidden cursor / memo state)
+        for i in range((12 if quick else 120) * boost):
+            cs.append(Case(f'local{i}', locality_history(rng, rng.choice(['A', 'L', 'L', 'L', 'T', 'LS']), 120 if quick else 400)))
         # (b) growth sweeps
         for kind in KINDS:
             n = (70 if quick else 700) if kind != 'T' else (60 if quick else 300)
